@@ -18,7 +18,28 @@ pub fn run(op: &str, args: &[String]) -> Option<String> {
             };
             match Script::from_bytes(&bs) {
                 Ok(s) => {
-                    let t = if op == "script.to_asm" { s.to_asm_string() } else { s.to_extended_asm_string() };
+                    let ext = op != "script.to_asm";
+                    let t = if ext { s.to_extended_asm_string() } else { s.to_asm_string() };
+                    // the other public ways to the same rendering must agree: the _impl entry point, a script
+                    // re-assembled in memory (from_script_bits, push, push_array), from_hex, a clone
+                    let bits = s.to_script_bits();
+                    let mut pushed = Script::default();
+                    for b in &bits {
+                        pushed.push(b.clone());
+                    }
+                    let mut arr = Script::default();
+                    arr.push_array(&bits);
+                    let others = [
+                        Some(s.to_asm_string_impl(ext)),
+                        Some(Script::from_script_bits(bits.clone()).to_asm_string_impl(ext)),
+                        Some(pushed.to_asm_string_impl(ext)),
+                        Some(arr.to_asm_string_impl(ext)),
+                        Some(s.clone().to_asm_string_impl(ext)),
+                        Script::from_hex(&hex::encode(&bs)).ok().map(|x| x.to_asm_string_impl(ext)),
+                    ];
+                    if others.iter().any(|o| o.as_ref() != Some(&t)) {
+                        return Some("OK:inconsistent".into());
+                    }
                     format!("OK:{}", text(&t))
                 }
                 Err(_) => "ERR".into(),
@@ -45,7 +66,12 @@ pub fn run(op: &str, args: &[String]) -> Option<String> {
                 Ok(s) => {
                     let t1 = s.to_asm_string();
                     match Script::from_asm_string(&t1) {
-                        Ok(s2) => format!("OK:{};{};{}", text(&t1), show_bytes(&s2.to_bytes()), text(&s2.to_asm_string())),
+                        Ok(s2) => {
+                            if s2.to_hex() != hex::encode(s2.to_bytes()) || s2.get_script_length() != s2.to_bytes().len() {
+                                return Some("OK:inconsistent".into());
+                            }
+                            format!("OK:{};{};{}", text(&t1), show_bytes(&s2.to_bytes()), text(&s2.to_asm_string()))
+                        }
                         Err(_) => format!("OK:{};ERR;", text(&t1)),
                     }
                 }
